@@ -181,23 +181,97 @@ def Good (st : St) (c : ObjId) (g : HS) : Prop :=
 theorem Good.ext {st st' : St} {c : ObjId} {g : HS} (h : Good st c g) (e : Ext st st') : Good st' c g :=
   ⟨h.1, fun s hs => e.surfs c s (h.2.1 s hs), fun d hd => e.comps c d (h.2.2 d hd)⟩
 
+theorem memS_of_mem (st : St) (s : ObjId) (l : List ObjId) (h : s ∈ l) : memS st s l = true := by
+  unfold memS
+  rw [List.any_eq_true]
+  exact ⟨s, h, by simp [surfEq]⟩
+
+theorem memS_mono (st : St) (s : ObjId) (l l' : List ObjId) (hsub : ∀ x ∈ l, x ∈ l') (h : memS st s l = true) :
+    memS st s l' = true := by
+  unfold memS at h ⊢
+  rw [List.any_eq_true] at h ⊢
+  obtain ⟨x, hx, he⟩ := h
+  exact ⟨x, hsub x hx, he⟩
+
+/-- the first pass over the surfaces: everything that was looked at is `in` the container or among the new ones -/
+theorem newSurfs_spec (st : St) (c : ObjId) : ∀ (l acc ns : List ObjId), newSurfs st c l acc = some ns →
+    (∀ x ∈ acc, x ∈ ns) ∧ (∀ s ∈ l, memS st s (st.cellOf c).surfs = true ∨ memS st s ns = true) := by
+  intro l
+  induction l with
+  | nil => intro acc ns h; simp only [newSurfs] at h; cases h; exact ⟨fun _ h => h, fun s hs => by cases hs⟩
+  | cons a t ih =>
+    intro acc ns h
+    simp only [newSurfs] at h
+    split at h
+    · rename_i hm
+      obtain ⟨h1, h2⟩ := ih acc ns h
+      refine ⟨h1, fun s hs => ?_⟩
+      rcases List.mem_cons.mp hs with rfl | ht
+      · rcases Bool.or_eq_true _ _ ▸ hm with hm | hm
+        · exact Or.inl hm
+        · exact Or.inr (memS_mono st _ acc ns h1 hm)
+      · exact h2 s ht
+    · split at h
+      · cases h
+      · obtain ⟨h1, h2⟩ := ih (acc ++ [a]) ns h
+        refine ⟨fun x hx => h1 x (List.mem_append_left _ hx), fun s hs => ?_⟩
+        rcases List.mem_cons.mp hs with rfl | ht
+        · exact Or.inr (memS_of_mem st _ ns (h1 _ (by simp)))
+        · exact h2 s ht
+
+theorem newComps_spec (st : St) (c : ObjId) : ∀ (l acc nc : List ObjId), newComps st c l acc = some nc →
+    (∀ x ∈ acc, x ∈ nc) ∧ (∀ d ∈ l, d ∈ (st.cellOf c).comps ∨ d ∈ nc) := by
+  intro l
+  induction l with
+  | nil => intro acc nc h; simp only [newComps] at h; cases h; exact ⟨fun _ h => h, fun s hs => by cases hs⟩
+  | cons a t ih =>
+    intro acc nc h
+    simp only [newComps] at h
+    split at h
+    · rename_i hm
+      obtain ⟨h1, h2⟩ := ih acc nc h
+      refine ⟨h1, fun s hs => ?_⟩
+      rcases List.mem_cons.mp hs with rfl | ht
+      · rcases Bool.or_eq_true _ _ ▸ hm with hm | hm
+        · exact Or.inl (by simpa using hm)
+        · exact Or.inr (h1 _ (by simpa using hm))
+      · exact h2 s ht
+    · split at h
+      · cases h
+      · obtain ⟨h1, h2⟩ := ih (acc ++ [a]) nc h
+        refine ⟨fun x hx => h1 x (List.mem_append_left _ hx), fun s hs => ?_⟩
+        rcases List.mem_cons.mp hs with rfl | ht
+        · exact Or.inr (h1 _ (by simp))
+        · exact h2 s ht
+
 theorem addChildren_spec (st : St) (c : ObjId) (other : HS) :
     Ext st (addChildren st c other).1 ∧
     ((addChildren st c other).2 = none → NoClones st →
       (∀ s ∈ other.surfs, s ∈ ((addChildren st c other).1.cellOf c).surfs) ∧
       (∀ d ∈ other.comps, d ∈ ((addChildren st c other).1.cellOf c).comps)) := by
   unfold addChildren
-  have h1 := addComps_spec c other.comps st
   split
-  · rename_i st1 heq
-    rw [heq] at h1
-    have h2 := addSurfs_spec c other.surfs st1
-    refine ⟨h1.1.trans h2.1, fun hok hn => ⟨h2.2 hok (hn.ext h1.1), fun d hd => h2.1.comps c d (h1.2 rfl d hd)⟩⟩
-  · rename_i r hne
-    refine ⟨h1.1, fun hok => ?_⟩
-    exfalso
-    apply hne (addComps c other.comps st).1
-    exact Prod.ext rfl hok
+  · rename_i nc ns hnc hns
+    have hc := (newComps_spec st c _ _ _ hnc).2
+    have hs := (newSurfs_spec st c _ _ _ hns).2
+    have h1 := addComps_spec c nc st
+    split
+    · rename_i st1 heq
+      rw [heq] at h1
+      have h2 := addSurfs_spec c ns st1
+      refine ⟨h1.1.trans h2.1, fun hok hn => ⟨fun s hs' => ?_, fun d hd => ?_⟩⟩
+      · rcases hs s hs' with hm | hm
+        · exact h2.1.surfs c s (h1.1.surfs c s ((memS_iff hn _ _).mp hm))
+        · exact h2.2 hok (hn.ext h1.1) s ((memS_iff hn _ _).mp hm)
+      · rcases hc d hd with hm | hm
+        · exact h2.1.comps c d (h1.1.comps c d hm)
+        · exact h2.1.comps c d (h1.2 rfl d hm)
+    · rename_i r hne
+      refine ⟨h1.1, fun hok => ?_⟩
+      exfalso
+      apply hne (addComps c nc st).1
+      exact Prod.ext rfl hok
+  · exact ⟨Ext.refl st, fun h => by cases h⟩
 
 @[simp] theorem setCell_surfs (c : ObjId) (g : HS) : (g.setCell c).surfs = g.surfs := by
   induction g with
@@ -225,17 +299,24 @@ theorem setCell_of_allCell (c : ObjId) (g : HS) (h : g.allCell c = true) : g.set
 
 /-- the validator of `left`/`right` on a node that points at `c` -/
 theorem linkChild_spec (st : St) (c : ObjId) (child : HS) :
-    Ext st (linkChild st (some c) child).1.1 ∧ (linkChild st (some c) child).2 = child.setCell c ∧
+    Ext st (linkChild st (some c) child).1.1 ∧
+    ((linkChild st (some c) child).1.2 = none → (linkChild st (some c) child).2 = child.setCell c) ∧
     ((linkChild st (some c) child).1.2 = none → NoClones st →
       Good (linkChild st (some c) child).1.1 c (child.setCell c)) := by
-  have h := addChildren_spec st c (child.setCell c)
-  show Ext st (addChildren st c (child.setCell c)).1 ∧ child.setCell c = child.setCell c ∧
-    ((addChildren st c (child.setCell c)).2 = none → NoClones st →
-      Good (addChildren st c (child.setCell c)).1 c (child.setCell c))
-  refine ⟨h.1, rfl, fun hok hn => ?_⟩
-  have := h.2 hok hn
-  simp only [setCell_surfs, setCell_comps] at this
-  exact ⟨setCell_allCell c child, by simpa using this.1, by simpa using this.2⟩
+  have h := addChildren_spec st c child
+  unfold linkChild
+  simp only
+  generalize addChildren st c child = r at h ⊢
+  obtain ⟨st1, e⟩ := r
+  cases e with
+  | some err =>
+    dsimp only at h ⊢
+    exact ⟨h.1, fun hh => (by cases hh), fun hh => (by cases hh)⟩
+  | none =>
+    dsimp only at h ⊢
+    refine ⟨h.1, fun _ => rfl, fun _ hn => ?_⟩
+    have := h.2 rfl hn
+    exact ⟨setCell_allCell c child, by simpa using this.1, by simpa using this.2⟩
 
 theorem good_bin {st : St} {c : ObjId} {u : Bool} {l r : HS} {p : Option ObjId} :
     Good st c (.bin u l r p) ↔ p = some c ∧ Good st c l ∧ Good st c r := by
@@ -265,21 +346,17 @@ theorem iopTail_spec (u0 : Bool) (l : HS) (c : ObjId) (other : HS) (st1 : St) (r
   generalize linkChild st1 (some c) newRight = lres at hl ⊢
   obtain ⟨⟨st2, e2⟩, r2⟩ := lres
   cases e2 with
-  | some err =>
-    refine ⟨hl.1, good_bin.mpr ⟨rfl, hgl.ext hl.1, ?_⟩⟩
-    show Good st2 c (r1.setCell c)
-    rw [setCell_of_allCell c r1 hr1.1]
-    exact hr1.ext hl.1
+  | some err => exact ⟨hl.1, good_bin.mpr ⟨rfl, hgl.ext hl.1, hr1.ext hl.1⟩⟩
   | none =>
     have hg2 : Good st2 c r2 := by
-      have h1 := hl.2.1
+      have h1 := hl.2.1 rfl
       have h2 := hl.2.2 rfl hn
       simp only at h1 h2
       rw [h1]; exact h2
     have ha := addChildren_spec st2 c other
     exact ⟨hl.1.trans ha.1, good_bin.mpr ⟨rfl, hgl.ext (hl.1.trans ha.1), hg2.ext ha.1⟩⟩
 
-/-- `__iand__` / `__ior__` in place: whatever happens (also when an append raises half way), the tree
+/-- `__iand__` / `__ior__` in place: whatever happens (also when the operand is refused), the tree
     that stays in the cell is registered with the cell. -/
 theorem iop_spec (u : Bool) (c : ObjId) (other : HS) : ∀ (self : HS) (st : St),
     NoClones st → Good st c self →
@@ -292,39 +369,37 @@ theorem iop_spec (u : Bool) (c : ObjId) (other : HS) : ∀ (self : HS) (st : St)
     intro st hn hg
     obtain ⟨hp, hgl, hgr⟩ := good_bin.mp hg
     subst hp
-    cases r with
-    | leaf ic d s q =>
-      simp only [iop]
-      have hl := linkChild_spec st c (.bin u (.leaf ic d s q) other none)
-      split
-      · rename_i st1 child heq
-        have e : Ext st st1 := by have := hl.1; rw [heq] at this; exact this
-        have hc : child = (HS.bin u (.leaf ic d s q) other none).setCell c := by
-          have := hl.2.1; rw [heq] at this; exact this
-        have hgood := hl.2.2 (by rw [heq]) hn
-        rw [heq] at hgood
-        refine ⟨e, good_bin.mpr ⟨rfl, hgl.ext e, ?_⟩⟩
-        rw [hc]; exact hgood
-      · rename_i st1 err x heq
-        have e : Ext st st1 := by have := hl.1; rw [heq] at this; exact this
-        refine ⟨e, good_bin.mpr ⟨rfl, hgl.ext e, ?_⟩⟩
-        have := hgr.ext e
-        show Good st1 c (HS.leaf ic d s (some c))
-        exact ⟨by simp [HS.allCell], this.2.1, this.2.2⟩
-    | compl rl rq =>
-      simp only [iop]
-      exact iopTail_spec u0 l c other st _ _ hn hgl hgr
-    | bin ru rl rr rq =>
-      rw [iop]
-      case x_4 => intro _ _ _ _ h; cases h
-      have ih := ihr st hn hgr
-      generalize iop u st (.bin ru rl rr rq) other = res at ih ⊢
-      obtain ⟨⟨st1, e1⟩, r1, ret⟩ := res
-      cases e1 with
-      | some err => exact ⟨ih.1, good_bin.mpr ⟨rfl, hgl.ext ih.1, ih.2⟩⟩
-      | none =>
-        have := iopTail_spec u0 l c other st1 r1 (retOr r1 ret) (hn.ext ih.1) (hgl.ext ih.1) ih.2
-        exact ⟨ih.1.trans this.1, this.2⟩
+    by_cases hu : (u0 != u) = true
+    · cases r <;> (simp only [iop, hu, if_true]; exact ⟨Ext.refl st, hg⟩)
+    · cases r with
+      | leaf ic d s q =>
+        simp only [iop, hu, if_false, Bool.false_eq_true]
+        have hl := linkChild_spec st c (.bin u (.leaf ic d s q) other none)
+        generalize linkChild st (some c) (.bin u (.leaf ic d s q) other none) = lres at hl ⊢
+        obtain ⟨⟨st1, e1⟩, child⟩ := lres
+        cases e1 with
+        | some err => exact ⟨hl.1, good_bin.mpr ⟨rfl, hgl.ext hl.1, hgr.ext hl.1⟩⟩
+        | none =>
+          have hc := hl.2.1 rfl
+          have hgood := hl.2.2 rfl hn
+          simp only at hc hgood
+          refine ⟨hl.1, good_bin.mpr ⟨rfl, hgl.ext hl.1, ?_⟩⟩
+          rw [hc]; exact hgood
+      | compl rl rq =>
+        simp only [iop, hu, if_false, Bool.false_eq_true]
+        exact iopTail_spec u0 l c other st _ _ hn hgl hgr
+      | bin ru rl rr rq =>
+        rw [iop]
+        case x_4 => intro _ _ _ _ h; cases h
+        simp only [hu, if_false, Bool.false_eq_true]
+        have ih := ihr st hn hgr
+        generalize iop u st (.bin ru rl rr rq) other = res at ih ⊢
+        obtain ⟨⟨st1, e1⟩, r1, ret⟩ := res
+        cases e1 with
+        | some err => exact ⟨ih.1, good_bin.mpr ⟨rfl, hgl.ext ih.1, ih.2⟩⟩
+        | none =>
+          have := iopTail_spec u0 l c other st1 r1 (retOr r1 ret) (hn.ext ih.1) (hgl.ext ih.1) ih.2
+          exact ⟨ih.1.trans this.1, this.2⟩
 
 /-- a sub-tree of a registered tree is registered -/
 theorem good_get {st : St} {c : ObjId} : ∀ (g : HS) (path : List Bool) (n : HS),
@@ -431,27 +506,30 @@ theorem iop_linkExt (u : Bool) (other : HS) : ∀ (self : HS) (st : St),
   | compl l p _ => intro st; simp only [iop]; exact LinkExt.refl st
   | bin u0 l r p _ ihr =>
     intro st
-    cases r with
-    | leaf ic d s q =>
-      simp only [iop]
-      cases p with
-      | none => simp only [linkChild]; exact LinkExt.refl st
-      | some c =>
-        have hl := (linkChild_spec st c (.bin u (.leaf ic d s q) other none)).1
-        generalize linkChild st (some c) (.bin u (.leaf ic d s q) other none) = lres at hl ⊢
-        obtain ⟨⟨st2, e2⟩, r2⟩ := lres
-        cases e2 <;> exact hl.linkExt
-    | compl rl rq =>
-      simp only [iop]
-      exact iopTail_linkExt u0 l p other st _ _
-    | bin ru rl rr rq =>
-      rw [iop]
-      case x_4 => intro _ _ _ _ h; cases h
-      have ih := ihr st
-      generalize iop u st (.bin ru rl rr rq) other = res at ih ⊢
-      obtain ⟨⟨st1, e1⟩, r1, ret⟩ := res
-      cases e1 with
-      | some err => exact ih
-      | none => exact ih.trans (iopTail_linkExt u0 l p other st1 r1 (retOr r1 ret))
+    by_cases hu : (u0 != u) = true
+    · cases r <;> (simp only [iop, hu, if_true]; exact LinkExt.refl st)
+    · cases r with
+      | leaf ic d s q =>
+        simp only [iop, hu, if_false, Bool.false_eq_true]
+        cases p with
+        | none => simp only [linkChild]; exact LinkExt.refl st
+        | some c =>
+          have hl := (linkChild_spec st c (.bin u (.leaf ic d s q) other none)).1
+          generalize linkChild st (some c) (.bin u (.leaf ic d s q) other none) = lres at hl ⊢
+          obtain ⟨⟨st2, e2⟩, r2⟩ := lres
+          cases e2 <;> exact hl.linkExt
+      | compl rl rq =>
+        simp only [iop, hu, if_false, Bool.false_eq_true]
+        exact iopTail_linkExt u0 l p other st _ _
+      | bin ru rl rr rq =>
+        rw [iop]
+        case x_4 => intro _ _ _ _ h; cases h
+        simp only [hu, if_false, Bool.false_eq_true]
+        have ih := ihr st
+        generalize iop u st (.bin ru rl rr rq) other = res at ih ⊢
+        obtain ⟨⟨st1, e1⟩, r1, ret⟩ := res
+        cases e1 with
+        | some err => exact ih
+        | none => exact ih.trans (iopTail_linkExt u0 l p other st1 r1 (retOr r1 ret))
 
 end MontePyVerif.Links
